@@ -31,12 +31,13 @@ type c37Conn struct {
 	TCP     bool   `json:"tcp,omitempty"`     // loopback TCP instead of net.Pipe
 	StartMs int    `json:"start_ms"`          // when CONNECT is sent, relative to the start of the case
 	GapsMs  []int  `json:"gaps_ms,omitempty"` // gap (from the previous send) before each further packet
-	Kinds   []int  `json:"kinds,omitempty"`   // per further packet: 0 PINGREQ, 1 PUBLISH QoS 0
+	Kinds   []int  `json:"kinds,omitempty"`   // per further packet: 0 PINGREQ, 1 PUBLISH QoS 0, 2 SUBSCRIBE QoS 0 to the feed topic
 	Intent  string `json:"intent,omitempty"`  // what the generator meant (informational; the verdict uses measured times only)
 }
 
 type c37Case struct {
-	HorizonMs int       `json:"horizon_ms"` // observation ends this long after the start of the case
+	HorizonMs int       `json:"horizon_ms"`        // observation ends this long after the start of the case
+	FeedMs    int       `json:"feed_ms,omitempty"` // > 0: a separate keepalive-0 publisher sends a QoS 0 message to the feed topic this often, all case long
 	Conns     []c37Conn `json:"conns"`
 }
 
@@ -215,6 +216,11 @@ type c37Obs struct {
 	PingResp int     `json:"pingresp"`  // PINGRESP packets received
 	Harness  string  `json:"harness"`   // non-empty: the harness itself failed (dial error, ...) - never a verdict
 	WriteErr string  `json:"write_err"` // first failed write, if any (the write is then not in B/A)
+	FeedRx   int     `json:"feed_rx"`   // PUBLISH packets received from the broker
+	// FeedSilent: reads that delivered broker-to-client data later than 100 ms after the client's last packet and
+	// FeedMaxGap: the longest stretch (us) without such a read between the last packet and the close / end
+	FeedSilent int   `json:"feed_silent"`
+	FeedMaxGap int64 `json:"feed_max_gap"`
 }
 
 func c37Connect(cn c37Conn, id string) []byte {
@@ -228,9 +234,21 @@ func c37Connect(cn c37Conn, id string) []byte {
 	return append([]byte{0x10, byte(len(body))}, body...)
 }
 
+const c37FeedTopic = "c37/feed"
+
 func c37Packet(cn c37Conn, kind int) []byte {
 	if kind == 0 {
 		return []byte{0xC0, 0x00}
+	}
+	if kind == 2 {
+		body := []byte{0, 7} // packet id
+		if cn.Ver == 5 {
+			body = append(body, 0)
+		}
+		body = append(body, 0, byte(len(c37FeedTopic)))
+		body = append(body, c37FeedTopic...)
+		body = append(body, 0) // QoS 0
+		return append([]byte{0x82, byte(len(body))}, body...)
 	}
 	body := []byte{0, 3, 'c', '3', '7'}
 	if cn.Ver == 5 {
@@ -280,6 +298,7 @@ func c37RunConn(e *c37Env, cn c37Conn, idx int, c net.Conn, dialErr error) (o c3
 	var closeAt atomic.Int64
 	var rxMu sync.Mutex
 	var rx []byte
+	var rxT []int64
 	go func() {
 		buf := make([]byte, 512)
 		for {
@@ -287,6 +306,7 @@ func c37RunConn(e *c37Env, cn c37Conn, idx int, c net.Conn, dialErr error) (o c3
 			if n > 0 {
 				rxMu.Lock()
 				rx = append(rx, buf[:n]...)
+				rxT = append(rxT, e.us(time.Now()))
 				rxMu.Unlock()
 			}
 			if err != nil {
@@ -384,8 +404,28 @@ func c37RunConn(e *c37Env, cn c37Conn, idx int, c net.Conn, dialErr error) (o c3
 			}
 		case 13:
 			o.PingResp++
+		case 3:
+			o.FeedRx++
 		}
 		p += 2 + l
+	}
+	if n := len(o.A); n > 0 && o.FeedRx > 0 {
+		prev, stop := o.A[n-1], o.End
+		if o.Close >= 0 {
+			stop = o.Close
+		}
+		for _, t := range rxT {
+			if t > o.A[n-1]+100000 && t <= stop {
+				o.FeedSilent++
+				if t-prev > o.FeedMaxGap {
+					o.FeedMaxGap = t - prev
+				}
+				prev = t
+			}
+		}
+		if stop-prev > o.FeedMaxGap {
+			o.FeedMaxGap = stop - prev
+		}
 	}
 	return
 }
@@ -397,6 +437,7 @@ type c37Verdict struct {
 	Asserted   bool
 	NonTrivial bool
 	CloseOffUs int64 // close time minus the send time of the last packet before it (-1: none judged)
+	Receiving  bool  // broker-to-client traffic kept arriving less than K seconds apart during the client's final silence
 	JitterUs   int64
 }
 
@@ -421,8 +462,8 @@ func c37Judge(cn c37Conn, o c37Obs, j *c37Jitter) (c37Verdict, []evid.Disc) {
 		for i := 1; i < len(o.B); i++ {
 			g = append(g, ms(o.B[i]-o.B[i-1]))
 		}
-		return fmt.Sprintf("K=%d v%d tcp=%v sends_ms=[%s] measured_gaps_ms=[%s] close_ms=%s end_ms=%s pingresp=%d werr=%q", cn.K, cn.Ver, cn.TCP,
-			joinMs(o.B), strings.Join(g, " "), ms(o.Close), ms(o.End), o.PingResp, o.WriteErr)
+		return fmt.Sprintf("K=%d v%d tcp=%v sends_ms=[%s] measured_gaps_ms=[%s] close_ms=%s end_ms=%s pingresp=%d publishes_received=%d (reads during the final silence %d, longest pause %s ms) werr=%q", cn.K, cn.Ver, cn.TCP,
+			joinMs(o.B), strings.Join(g, " "), ms(o.Close), ms(o.End), o.PingResp, o.FeedRx, o.FeedSilent, ms(o.FeedMaxGap), o.WriteErr)
 	}
 	if o.Harness != "" || len(o.B) == 0 {
 		v.Class = "harness-failure"
@@ -461,6 +502,11 @@ func c37Judge(cn c37Conn, o c37Obs, j *c37Jitter) (c37Verdict, []evid.Disc) {
 		return v, nil
 	}
 	B, M := c37Boundary(cn.K), c37Margin(cn.K)
+	// The property counts packets arriving FROM the client only; what the broker sends must not keep a silent client alive.
+	recv := ""
+	if o.FeedSilent >= 3 && o.FeedMaxGap <= int64(cn.K)*1000*1000 {
+		v.Receiving, recv = true, "-while-receiving"
+	}
 	jitOK := func(from, to int64) bool {
 		jit := j.over(from, to)
 		if jit > v.JitterUs {
@@ -499,7 +545,7 @@ func c37Judge(cn c37Conn, o c37Obs, j *c37Jitter) (c37Verdict, []evid.Disc) {
 					return v, nil
 				}
 				v.Asserted, v.Class = true, "closed-late"
-				return v, []evid.Disc{evid.D(fmt.Sprintf("C37-closed-late-k%d", cn.K), "closed %s ms after the last packet (interval %d); 1.5 x K = %s ms, margin %s ms, worst scheduling delay %s ms: %s",
+				return v, []evid.Disc{evid.D(fmt.Sprintf("C37-closed-late-k%d%s", cn.K, recv), "closed %s ms after the last packet (interval %d); 1.5 x K = %s ms, margin %s ms, worst scheduling delay %s ms: %s",
 					ms(offA), i, ms(B), ms(M), ms(v.JitterUs), desc())}
 			}
 			v.Asserted, v.NonTrivial, v.Class = true, true, "closed-in-window"
@@ -531,7 +577,7 @@ func c37Judge(cn c37Conn, o c37Obs, j *c37Jitter) (c37Verdict, []evid.Disc) {
 				return v, nil
 			}
 			v.Asserted, v.Class = true, "not-closed"
-			return v, []evid.Disc{evid.D(fmt.Sprintf("C37-not-closed-k%d", cn.K), "still open %s ms after packet %d; 1.5 x K = %s ms, margin %s ms, worst scheduling delay %s ms: %s",
+			return v, []evid.Disc{evid.D(fmt.Sprintf("C37-not-closed-k%d%s", cn.K, recv), "still open %s ms after packet %d; 1.5 x K = %s ms, margin %s ms, worst scheduling delay %s ms: %s",
 				ms(lo), i, ms(B), ms(M), ms(v.JitterUs), desc())}
 		default:
 			if virtual {
@@ -610,6 +656,10 @@ func c37Execute(c c37Case, r *evid.Rec) ([]c37Obs, *c37Jitter, bool) {
 	for i, cn := range c.Conns {
 		conns[i], errs[i] = c37Dial(e, cn)
 	}
+	var feedConn net.Conn
+	if c.FeedMs > 0 {
+		feedConn, _ = c37Dial(e, c37Conn{})
+	}
 	// settle: wait (at most 1 s) for a 200 ms stretch without a scheduling delay above 15 ms
 	for i := 0; i < 5; i++ {
 		time.Sleep(200 * time.Millisecond)
@@ -623,6 +673,8 @@ func c37Execute(c c37Case, r *evid.Rec) ([]c37Obs, *c37Jitter, bool) {
 	jit.maxAll.Store(0)
 	e.horizon = e.begin.Add(time.Duration(c.HorizonMs) * time.Millisecond)
 
+	feedStop, feedDone := make(chan struct{}), make(chan struct{})
+	go func() { defer close(feedDone); c37Feed(e, c.FeedMs, feedConn, feedStop, r) }()
 	obs := make([]c37Obs, len(c.Conns))
 	var wg sync.WaitGroup
 	for i := range c.Conns {
@@ -630,6 +682,8 @@ func c37Execute(c c37Case, r *evid.Rec) ([]c37Obs, *c37Jitter, bool) {
 		go func(i int) { defer wg.Done(); obs[i] = c37RunConn(e, c.Conns[i], i, conns[i], errs[i]) }(i)
 	}
 	wg.Wait()
+	close(feedStop)
+	<-feedDone
 	jit.finish()
 	if ln != nil {
 		_ = ln.Close()
@@ -643,6 +697,41 @@ func c37Execute(c c37Case, r *evid.Rec) ([]c37Obs, *c37Jitter, bool) {
 	}
 	_ = srv.Close()
 	return obs, jit, e.tcpAddr != ""
+}
+
+// c37Feed is the publisher of the case: a keepalive-0 connection on a pipe that sends one QoS 0 message to the feed
+// topic every periodMs from the start of the scripts until the last scripted connection has finished. It is not judged.
+func c37Feed(e *c37Env, periodMs int, c net.Conn, stop <-chan struct{}, r *evid.Rec) {
+	if periodMs <= 0 || c == nil {
+		return
+	}
+	defer c.Close()
+	go func() { _, _ = io.Copy(io.Discard, c) }()
+	time.Sleep(time.Until(e.begin))
+	write := func(p []byte) bool {
+		_ = c.SetWriteDeadline(time.Now().Add(2500 * time.Millisecond))
+		_, err := c.Write(p)
+		return err == nil
+	}
+	if !write(c37Connect(c37Conn{K: 0, Ver: 4}, "c37-feed")) {
+		r.Label("feed-publisher-failed")
+		return
+	}
+	body := append([]byte{0, byte(len(c37FeedTopic))}, c37FeedTopic...)
+	pk := append([]byte{0x30, byte(len(body) + 1)}, append(body, 'f')...)
+	tk := time.NewTicker(time.Duration(periodMs) * time.Millisecond)
+	defer tk.Stop()
+	for {
+		select {
+		case <-stop:
+			return
+		case <-tk.C:
+			if !write(pk) {
+				r.Label("feed-publisher-failed")
+				return
+			}
+		}
+	}
 }
 
 // c37Confirmations: a discrepancy is reported only if the same connection script, re-run in a fresh small case,
@@ -670,7 +759,7 @@ func c37Check(c c37Case, r *evid.Rec) []evid.Disc {
 		}
 	}
 	for round := 0; round < c37Confirmations && len(suspects) > 0; round++ {
-		sub := c37Case{HorizonMs: c.HorizonMs}
+		sub := c37Case{HorizonMs: c.HorizonMs, FeedMs: c.FeedMs}
 		for _, i := range suspects {
 			sub.Conns = append(sub.Conns, c.Conns[i])
 		}
@@ -707,6 +796,9 @@ func c37Check(c c37Case, r *evid.Rec) []evid.Disc {
 			tr = "tcp"
 		}
 		r.Label(fmt.Sprintf("k%d %s", cn.K, v.Class))
+		if v.Receiving {
+			r.Label(fmt.Sprintf("k%d receiving-while-silent %s", cn.K, v.Class))
+		}
 		if os.Getenv("VERIF_C37_DEBUG") != "" {
 			fmt.Printf("C37-DEBUG %s jitter=%s %+v %+v\n", v.Class, ms(v.JitterUs), cn, obs[i])
 		}
@@ -795,11 +887,23 @@ func c37GenConn(rt *rapid.T, i int) c37Conn {
 		}
 		return rapid.IntRange(50, cn.K*1000).Draw(rt, "short")
 	}
-	switch rapid.SampledFrom([]string{"silence", "silence", "silence", "active", "far-then-send", "in-margin"}).Draw(rt, "intent") {
+	switch rapid.SampledFrom([]string{"silence", "silence", "silence", "receiving", "receiving", "active", "far-then-send", "in-margin"}).Draw(rt, "intent") {
 	case "silence": // 0-4 safe gaps, then silence long enough for the close to be required within the horizon
 		cn.Intent = "silence"
 		budget -= B + M + 100
 		n := rapid.IntRange(0, 4).Draw(rt, "n")
+		for x := 0; x < n; x++ {
+			if !add(safeGap()) {
+				break
+			}
+		}
+	case "receiving": // SUBSCRIBE to the feed early, 0-2 further safe gaps, then silence while the feed keeps arriving
+		cn.Intent = "receiving"
+		budget -= B + M + 100
+		g := rapid.IntRange(50, 300).Draw(rt, "subgap")
+		cn.GapsMs, cn.Kinds = append(cn.GapsMs, g), append(cn.Kinds, 2)
+		budget -= g
+		n := rapid.IntRange(0, 2).Draw(rt, "n")
 		for x := 0; x < n; x++ {
 			if !add(safeGap()) {
 				break
@@ -841,7 +945,7 @@ func c37GenConn(rt *rapid.T, i int) c37Conn {
 }
 
 func c37Gen(rt *rapid.T) c37Case {
-	c := c37Case{HorizonMs: c37Horizon}
+	c := c37Case{HorizonMs: c37Horizon, FeedMs: rapid.IntRange(200, 400).Draw(rt, "feed")}
 	n := rapid.IntRange(30, 60).Draw(rt, "nconns")
 	for i := 0; i < n; i++ {
 		c.Conns = append(c.Conns, c37GenConn(rt, i))
@@ -852,6 +956,7 @@ func c37Gen(rt *rapid.T) c37Case {
 func TestC37(t *testing.T) {
 	r := evid.New("C37", "real time: each case opens 30-60 concurrent connections (net.Pipe and loopback TCP handed to Server.EstablishConnection, allow-all auth, v4/v5) "+
 		"with keepalive K in {0,1,2,3} s and a script of PINGREQ / QoS 0 PUBLISH gaps followed by silence; one evaluation = one connection. "+
+		"A quarter of the K > 0 connections first SUBSCRIBE (QoS 0) to a feed topic on which a separate keepalive-0 publisher sends a message every 200-400 ms all case long, so that they keep RECEIVING while silent (label receiving-while-silent: >= 3 deliveries during the final silence, never more than K seconds apart); only packets FROM the client count, the oracle is the same. "+
 		"Oracle on MEASURED send and close times with boundary 1.5 x K and margin max(K/4, 0.4 s): every gap <= 1.5K - margin must be survived; after a gap or silence >= 1.5K + margin the "+
 		"connection must have been closed, not earlier than 1.5K - margin after the last packet; K = 0 is never closed. Connections whose measured gaps fall inside a margin, or whose intervals saw a "+
 		"scheduling delay with 4 x delay + 40 ms > margin (sleeper probes and deadline canaries run with every case), are dropped and counted as not asserted. "+
